@@ -416,7 +416,8 @@ theorem swBestRow_bound (R C i : Nat) (hi : i ≤ R) :
     simp only [swBestRow]
     apply ih
     · simp at hj ⊢; omega
-    · cases cell.d with
+    · unfold swBestStep
+      cases cell.d with
       | none => exact hb
       | some s =>
         simp only []
